@@ -9,7 +9,7 @@ from reactivex.internal.exceptions import ArgumentOutOfRangeException
 from reactivex.notification import OnCompleted, OnError, OnNext
 
 from .. import registry as R
-from ..common import UnitResult, case_rng, chunks, show
+from ..common import UnitResult, case_rng, chunks, show, strict
 from ..single import SUB_AT, cut_after_terminal, make_input, match_expected, run_single, run_twice, show_timed
 from ..vlab import SrcErr, gen_timeline, show_timeline
 
@@ -27,7 +27,8 @@ OPS = ["map", "map_indexed", "filter", "filter_indexed", "take", "skip", "take_w
        "default_if_empty", "ignore_elements", "take_last", "skip_last", "take_last_buffer", "element_at",
        "element_at_or_default", "find", "find_index", "starmap", "pluck", "pluck_attr",
        "materialize", "dematerialize"]
-REQUIRED = {"set:ops": len(OPS), "second_subscriptions_checked": {"quick": 300, "thorough": 20000}}
+REQUIRED = {"set:ops": len(OPS), "second_subscriptions_checked": {"quick": 300, "thorough": 20000},
+            "reentrant_feed_cases": {"quick": 600, "thorough": 40000}}
 
 
 class Box:
@@ -351,10 +352,67 @@ def run_case(seed: int, idx: int, res: UnitResult) -> None:
                           {"seed": seed, "idx": idx})
 
 
+def reentrant_feed_case(seed: int, idx: int, res: UnitResult) -> None:
+    """The source is a Subject that is fed from inside the deliveries: the operator's subscriber publishes the next input element
+    from its on_next (a feedback loop), and a plain subscriber of the source, subscribed last, keeps the feed going when the
+    operator swallowed an element. list(input) is what a subscriber that subscribed first saw; the output must still be the
+    list result (no virtual time here: kinds and values are compared)."""
+    from reactivex.subject import Subject
+    r = case_rng(seed, ID, "reentrant", idx)
+    case = gen_case(r, idx)
+    xs = [v for (t, k, v) in case["tl"] if k == "N"]
+    if any(k == "E" for (t, k, v) in case["tl"]):
+        return
+    n = len(xs)
+    subject: Any = Subject()
+    everything: list = []
+    subject.subscribe(everything.append)
+    st = {"next": 0, "subscribed": False}
+
+    def push_next() -> None:
+        if st["subscribed"] and st["next"] < n:
+            i = st["next"]
+            st["next"] += 1
+            subject.on_next(xs[i])
+    got: list = []
+
+    def on_next(v: Any) -> None:
+        got.append(("N", v))
+        push_next()
+    subject.pipe(build(case)).subscribe(on_next, lambda e: got.append(("E", e)), lambda: got.append(("C", None)))
+
+    def pump(v: Any) -> None:
+        if st["next"] == len(everything):
+            push_next()
+    subject.subscribe(pump)
+    st["subscribed"] = True
+    push_next()
+    subject.on_completed()
+    desc = describe(case)
+    desc["family"] = "re-entrant feed"
+    if len(everything) != n or st["next"] != n:
+        res.count("reentrant_setup_not_serial")
+        return
+    seen = [(float(i), "N", v) for i, v in enumerate(xs)] + [(float(n), "C", None)]
+    exp = [(k, v) for (t, k, v) in model(case, seen, 0.0)]
+    res.count("reentrant_feed_cases")
+    res.case(key=desc, nontrivial=n >= 2)
+    ok = len(exp) == len(got) and all(a[0] == b[0] and (a[0] != "N" or strict(a[1]) == strict(b[1])) for a, b in zip(exp, got))
+    if not ok:
+        res.violation("C05:%s:reentrant-source" % case["op"], {"why": "output differs from the list result when the source is fed from inside the deliveries",
+                                                                "case": desc, "input": show(xs), "expected": show(exp), "observed": show(got)},
+                      {"seed": seed, "idx": idx, "family": "reentrant"})
+
+
 def run_unit(unit: dict, res: UnitResult) -> None:
     for idx in range(unit["lo"], unit["hi"]):
         run_case(unit["seed"], idx, res)
+        if idx % 3 == 0:
+            reentrant_feed_case(unit["seed"], idx, res)
 
 
 def replay(rep: dict, res: UnitResult) -> None:
+    if rep.get("family") == "reentrant":
+        reentrant_feed_case(rep["seed"], rep["idx"], res)
+        return
     run_case(rep["seed"], rep["idx"], res)
